@@ -27,7 +27,7 @@ RULE = (
     "fixed-tau, or a round trip, or a scaling case with >= 50 samples. Distinct = hash of the case record."
 )
 ASSUMPTIONS = [
-    "M >= 0.1, and for round trips M^2/tau >= 1e-3: outside that SciPy's curve_fit stops on its absolute default gtol=1e-8 before the parameters are resolved (documented termination rule of an unscaled problem, not a claim of the library; M = 0.1 with tau = 1e5 gives 0.8 % error on the unchanged tree)",
+    "M from 1e-6 to 1e12 and tau from 1e-3 to 1e6 (any production / time unit); an earlier version of this check restricted round trips to M^2/tau >= 1e-3 and called the failures below that SciPy's business - wrongly: the fit must not depend on the production unit, and the library now normalises the data (fix 5cafe7e)",
     "lower bounds are finite (physical parameters are positive); upper bounds finite or +inf",
     "round trip tolerance 1e-3 relative; fixed-tau optimum: the fitted M may exceed the closed-form bounded optimum's sum of squares by at most 1e-9 of the data's sum of squares (|dM|/M <~ 3e-5); when the optimum is an active bound, within 1e-3 relative of that bound",
     "a fit that raises (optimiser did not converge on arbitrary data) yields no fitted value and is counted, not reported",
@@ -92,8 +92,8 @@ def strategy_(draw):
     c = {
         "kind": kind,
         "curve": draw(st.sampled_from(["ideal", "realgas", "analytic", "synthetic", "ideal-short", "cubic", "previous-extrapolate"])),
-        "logM": draw(st.floats(-1.0, 12.0)),
-        "logtau": draw(st.floats(-3.0, 5.0)),
+        "logM": draw(st.one_of(st.floats(-1.0, 12.0), st.floats(-6.0, 12.0))),
+        "logtau": draw(st.one_of(st.floats(-3.0, 5.0), st.floats(-3.0, 6.0))),
         "n": draw(st.integers(50, 400)),
         "end": draw(st.floats(0.6, 3.0)),
         "quadratic": draw(st.booleans()),
@@ -247,13 +247,10 @@ def check_case(case) -> Result:
 
     y_clean = M * np.asarray(rf(t / tau), float)
     if kind == "round-trip":
-        # curve_fit stops when the gradient falls below its ABSOLUTE default gtol = 1e-8.  Near the optimum the gradient
-        # with respect to tau is ~ n (M/tau)^2 c dtau, so the attainable relative accuracy of tau is ~ 1e-8 tau / (n c M^2):
-        # for M^2/tau below ~1e-3 (M = 0.1 with tau = 1e5 gives 0.8 %) that is SciPy's termination rule on an unscaled
-        # problem, not a claim of the library (same restriction as M >= 0.1, see ASSUMPTIONS)
-        if M * M / tau < 1e-3:
-            res.skipped = "round trip outside the domain where curve_fit's absolute gtol is not the limiting factor (M^2/tau < 1e-3)"
-            return res
+        # every production unit: M from 1e-6 (a well's EUR in Bcf or in 1e6 m3 is a small number) to 1e12; SciPy's
+        # curve_fit has an ABSOLUTE default gradient tolerance, so a fit that hands it the raw data resolves nothing for
+        # M below ~1e-3 - that is the library's to deal with (fixed in /repo, see known_findings.txt), not a domain limit
+        res.labels["M_decade"] = "<1e-3" if M < 1e-3 else ("<1" if M < 1 else ">=1")
         f = ForecasterOnePhase(rf)
         lib("fit", f.fit, t, y_clean)
         eM, et = abs(f.M_ / M - 1), abs(f.tau_ / tau - 1)
